@@ -40,6 +40,7 @@ import (
 	"crypto/sha256"
 	"encoding/hex"
 	"encoding/json"
+	"errors"
 	"flag"
 	"fmt"
 	"io"
@@ -309,6 +310,10 @@ func activeSend(srv *service.GoJT808, tag, key string, id int, body []byte, time
 	start := time.Now()
 	// 0 -> library default (3 s); negative -> the library starts no timeout goroutine at all.
 	am := service.NewActiveMessage(key, consts.JT808CommandType(id), body, time.Duration(timeoutMs)*time.Millisecond)
+	if timeoutMs == 0 {
+		// the way nearly every caller under example/ builds it: a literal that leaves the time-out at its zero value
+		am = &service.ActiveMessage{Key: key, Command: consts.JT808CommandType(id), Body: body}
+	}
 	res := srv.SendActiveMessage(am)
 	e := ev{"event": "active-result", "tag": tag, "elapsed_ms": time.Since(start).Milliseconds(),
 		"err": "", "platformSeq": 0, "respID": 0, "respSerial": 0, "respBody": "", "platformData": "", "nil": res == nil}
@@ -316,6 +321,10 @@ func activeSend(srv *service.GoJT808, tag, key string, id int, body []byte, time
 		v := render(res)
 		e["err"], e["platformSeq"], e["respID"], e["respSerial"] = v.Err, v.PlatformSeq, v.ID, v.Serial
 		e["respBody"], e["platformData"], e["msg"] = v.Body, v.PlatformData, v
+		// the exported sentinels are part of the API: callers tell the outcomes apart with errors.Is
+		e["isNotExist"] = errors.Is(res.ExtensionFields.Err, service.ErrNotExistKey)
+		e["isOvertime"] = errors.Is(res.ExtensionFields.Err, service.ErrWriteDataOverTime)
+		e["isWriteFail"] = errors.Is(res.ExtensionFields.Err, service.ErrWriteDataFail)
 	}
 	emit(e)
 }
